@@ -16,6 +16,11 @@ from vcommon import Run, ToolError, log
 
 OVERHEAD_MS = 250
 FORCED = []      # positions with exactly one legal move from the last pool() call
+# the only legal move is an en-passant capture (the pawn that just double-stepped gives check and nothing else helps): a "has
+# the side to move any move" shortcut that forgets the special moves answers such a position with the null move (what is
+# legal in these positions is TLC's verdict, not this list's; the last entry is an ordinary position reached by a double step)
+ONLY_SPECIAL = ["position fen 8/8/5k2/5ppP/7K/r7/8/8 w - g6 0 1", "position fen 8/8/R7/7k/5PPp/5K2/8/8 b - g3 0 1",
+                "position fen 8/8/8/8/4k3/8/5P2/r3K3 w - - 0 1 moves e1d2 a1a3 f2f4"]
 
 GO_ZERO = ["go", "go infinite", "go wtime 0 btime 0", "go wtime -5 btime -5 winc 0 binc 0", "go wtime 100 btime 100", "go wtime 101 btime 101",
            "go movestogo 3", "go winc 0 binc 0 wtime 90 btime 90 movestogo 2",
@@ -76,7 +81,7 @@ def pool(h, seed, small=10, mate=6, rep=4, game=8, term=0):
     items = json.load(open(path))
     os.remove(path)
     live = [x["cmd"] for x in items if x["tag"] not in ("terminal", "forced")]
-    FORCED[:] = [x["cmd"] for x in items if x["tag"] == "forced"]
+    FORCED[:] = [x["cmd"] for x in items if x["tag"] == "forced"] + ONLY_SPECIAL
     live.append("position startpos")
     live.append("position startpos moves e2e4 e7e5 g1f3")
     return live, [x["cmd"] for x in items if x["tag"] == "terminal"]
@@ -299,6 +304,9 @@ def c03(tier, replay):
         for _ in range(4):
             steps.append({"do": "go", "line": rng.choice(GO_ZERO + GO_ZERO + GO_SMALL)})
         sessions.append(steps)
+    # forced replies, among them positions whose only legal move is an en-passant capture / a promotion
+    for p in FORCED:
+        sessions.append([{"do": "send", "line": p}, {"do": "go", "line": rng.choice(GO_SMALL)}, {"do": "send", "line": p}, {"do": "go", "line": rng.choice(GO_ZERO)}])
     # GUI-style games: position <game so far> / go / reply / ... in one process
     games, _ = game_sessions(rng, live, 4 if q else 40, "c3g", plies=6)
     sessions += games
@@ -357,6 +365,9 @@ def c08(tier, replay):
     # clocks with unknown tokens in between (still clock settings with movestogo >= 1)
     for g in GO_ODD:
         sessions.append([{"do": "send", "line": rng.choice(live)}, {"do": "go", "line": g}, {"do": "isready"}])
+    # forced replies (also: the only legal move is an en-passant capture / a promotion - not a finished game)
+    for p in FORCED:
+        sessions.append([{"do": "send", "line": p}, {"do": "go", "line": rng.choice(clocks)}, {"do": "isready"}])
     # go after the engine's own move may meet a finished game: mate-in-one positions, two go in a row
     for p in [x for x in live if True][: (10 if q else 60)]:
         sessions.append([{"do": "send", "line": p}, {"do": "go", "line": "go wtime 220 btime 220 movestogo 1"}, {"do": "go", "line": "go wtime 130 btime 130 movestogo 1"},
